@@ -47,11 +47,13 @@ def gen_dataset(rng, system=None, nv=None, nq=None, natoms=None, lattice=None, d
     nq = int(rng.integers(1, 9)) if nq is None else nq
     natoms = int(rng.integers(1, 11)) if natoms is None else natoms
     np_ = 3 * natoms
-    v0 = float(rng.uniform(80, 900))
+    v0 = float(rng.uniform(80, 900)) if rng.random() < 0.6 else float(rng.uniform(900, 3000))
     k0 = float(rng.uniform(90, 220)) / U.GPA_PER_AU
     kp = float(rng.uniform(3.5, 5.0))
     e0 = float(rng.uniform(-400, -10))
-    volumes = v0 * numpy.linspace(1.08, 0.78, nv) * (1 + rng.uniform(-0.004, 0.004, nv) * (nv > 4))
+    # sampled range: a wide compression study (1.08..0.78 V0) or the narrower ranges of typical input files
+    hi_, lo_ = [(1.08, 0.78), (1.05, 0.85), (1.03, 0.90)][int(rng.integers(0, 3))]
+    volumes = v0 * numpy.linspace(hi_, lo_, nv) * (1 + rng.uniform(-0.004, 0.004, nv) * (nv > 4) * (hi_ - lo_) / 0.3)
     volumes = numpy.sort(volumes)[::-1].copy()
     energies = bm3_energy(volumes, v0, k0, kp, e0)
     if energy_class == "noncubic":
@@ -93,7 +95,7 @@ def gen_dataset(rng, system=None, nv=None, nq=None, natoms=None, lattice=None, d
         svol = volumes.copy()
     else:
         ns = int(rng.integers(4, 13)) if static_volumes == "independent" else nv
-        svol = numpy.sort(v0 * numpy.linspace(1.10, 0.76, ns) * (1 + rng.uniform(-0.01, 0.01, ns)))[::-1].copy()
+        svol = numpy.sort(v0 * numpy.linspace(hi_ + 0.02, lo_ - 0.02, ns) * (1 + rng.uniform(-0.01, 0.01, ns) * (hi_ - lo_) / 0.3))[::-1].copy()
     comp = (v0 / svol - 1.0)[:, None]
     table = (base + pert)[None, :] * (1 + 3.5 * comp + 2.0 * comp ** 2) + slope[None, :] * comp       # (nv, 21) GPa
     nonzero = [n for n in range(21) if numpy.any(B[n, :])]
